@@ -73,3 +73,90 @@ Lemma uniform_repeat {X} m (r : list X) n : length r = m -> uniform m (repeat r 
 Proof. intros H. induction n; cbn; constructor; auto. Qed.
 Lemma upd_length' {X} (l : list X) i o : length (upd l i o) = length l.
 Proof. revert i; induction l as [|h t IH]; intros [|i]; cbn; auto. Qed.
+
+(* ---- number of elements of a shape, split around one dimension ---- *)
+Lemma nel_cons a sh : nel (a :: sh) = a * nel sh.
+Proof. reflexivity. Qed.
+Lemma nel_split sh k : k < length sh -> nel sh = nel (firstn k sh) * (nth k sh 0 * nel (skipn (S k) sh)).
+Proof.
+  revert k; induction sh as [|a sh IH]; intros k Hk; [cbn in Hk; lia|].
+  destruct k as [|k].
+  - cbn [firstn nth skipn]. rewrite nel_cons. cbn [nel fold_right]. lia.
+  - cbn [firstn nth skipn]. rewrite !nel_cons. rewrite (IH k) by (cbn in Hk; lia). cbn [skipn]. lia.
+Qed.
+Lemma nel_upd sh k size : k < length sh ->
+  nel (upd sh k size) = nel (firstn k sh) * (size * nel (skipn (S k) sh)).
+Proof.
+  revert k; induction sh as [|a sh IH]; intros k Hk; [cbn in Hk; lia|].
+  destruct k as [|k].
+  - cbn [upd firstn skipn]. rewrite nel_cons. cbn [nel fold_right]. lia.
+  - cbn [upd firstn skipn]. rewrite !nel_cons. rewrite (IH k) by (cbn in Hk; lia). cbn [skipn]. lia.
+Qed.
+
+Lemma concat_length_uniform' {X} m (rows : list (list X)) : uniform m rows -> length (concat rows) = length rows * m.
+Proof. apply concat_length_uniform. Qed.
+
+Lemma uniform_map {X} m m' (f : list X -> list X) (rows : list (list X)) :
+  (forall r, length r = m -> length (f r) = m') -> uniform m rows -> uniform m' (map f rows).
+Proof. intros Hf H. induction H; cbn; constructor; auto. Qed.
+
+Lemma resize_dim_length {X} (z : X) sh fl k size : k < length sh -> length fl = nel sh ->
+  length (resize_dim z sh fl k size) = nel (upd sh k size).
+Proof.
+  intros Hk Hl. unfold resize_dim. rewrite (nel_upd sh k size Hk).
+  set (outer := nel (firstn k sh)). set (n := nth k sh 0). set (inner := nel (skipn (S k) sh)).
+  assert (Hl' : length fl = outer * (n * inner)) by (rewrite Hl; apply nel_split; exact Hk).
+  pose proof (chunks_uniform (n * inner) outer fl Hl') as Hu.
+  destruct (Nat.ltb_spec size n) as [H1|H1].
+  - rewrite (concat_length_uniform (size * inner)).
+    + rewrite map_length, chunks_length. reflexivity.
+    + eapply uniform_map; [|exact Hu]. intros r Hr. rewrite skipn_length, Hr. nia.
+  - destruct (Nat.ltb_spec n size) as [H2|H2].
+    + rewrite (concat_length_uniform (size * inner)).
+      * rewrite map_length, chunks_length. reflexivity.
+      * eapply uniform_map; [|exact Hu]. intros r Hr. rewrite app_length, repeat_length, Hr. nia.
+    + assert (size = n) as -> by lia. exact Hl'.
+Qed.
+
+(* ---- resizing a trailing dimension of a record acts on every stored observation ---- *)
+Lemma chunks_app {X} b c1 c2 (l1 l2 : list X) : length l1 = c1 * b ->
+  chunks b (c1 + c2) (l1 ++ l2) = chunks b c1 l1 ++ chunks b c2 l2.
+Proof.
+  revert l1; induction c1 as [|c1 IH]; intros l1 Hl; cbn [Nat.add chunks].
+  - destruct l1; [reflexivity|cbn in Hl; lia].
+  - cbn in Hl. rewrite firstn_app, skipn_app.
+    replace (b - length l1) with 0 by lia. cbn [firstn skipn]. rewrite app_nil_r.
+    cbn [app]. f_equal. rewrite <- IH by (rewrite skipn_length; lia). reflexivity.
+Qed.
+Lemma chunks_concat_rows {X} b outer (rows : list (list X)) : uniform (outer * b) rows ->
+  chunks b (length rows * outer) (concat rows) = concat (map (chunks b outer) rows).
+Proof.
+  induction 1 as [|r t Hr Ht IH]; cbn [length Nat.mul concat map]; [reflexivity|].
+  rewrite chunks_app by exact Hr. rewrite IH. reflexivity.
+Qed.
+Lemma concat_map_concat {X Y} (f : list X -> list Y) (g : list X -> list (list X)) (rows : list (list X)) :
+  concat (map f (concat (map g rows))) = concat (map (fun row => concat (map f (g row))) rows).
+Proof.
+  induction rows as [|r t IH]; cbn [map concat]; [reflexivity|].
+  rewrite map_app, concat_app, IH. reflexivity.
+Qed.
+
+Lemma resize_dim_succ {X} (z : X) sh (rows : list (list X)) k size : k < length sh -> uniform (nel sh) rows ->
+  resize_dim z (length rows :: sh) (concat rows) (S k) size =
+  concat (map (fun row => resize_dim z sh row k size) rows).
+Proof.
+  intros Hk Hu. unfold resize_dim.
+  change (firstn (S k) (length rows :: sh)) with (length rows :: firstn k sh).
+  change (nth (S k) (length rows :: sh) 0) with (nth k sh 0).
+  change (skipn (S (S k)) (length rows :: sh)) with (skipn (S k) sh).
+  rewrite nel_cons.
+  set (outer := nel (firstn k sh)). set (n := nth k sh 0). set (inner := nel (skipn (S k) sh)).
+  assert (Hu' : uniform (outer * (n * inner)) rows).
+  { unfold uniform in *. eapply Forall_impl; [|exact Hu]. intros r Hr. rewrite Hr. apply nel_split. exact Hk. }
+  rewrite (chunks_concat_rows (n * inner) outer rows Hu').
+  destruct (size <? n).
+  - apply concat_map_concat.
+  - destruct (n <? size).
+    + apply concat_map_concat.
+    + rewrite map_id. reflexivity.
+Qed.
